@@ -443,7 +443,8 @@ def func_tokens(f, out):
         if i:
             out.append(",")
         out.append(type_str(t))
-        out.append(n)
+        if n is not None:       # (a parameter may be given by its type only)
+            out.append(n)
     out.extend([")", "->", type_str(f.ret)])
     stmt_tokens(f.body, out)
 
